@@ -108,6 +108,82 @@ func init() {
 		exec: func(w *World, st *Step) {}})
 }
 
+func init() {
+	// cowclone: turn copy-on-write on and clone, so that both bitmaps hold flagged, shared chunks
+	reg(&opDef{name: "cowclone", tag: "C02",
+		gen: func(w *World, r *Rng) (Step, bool) {
+			a := w.nonEmptySlot(r)
+			if w.B[a].ZeroCopy {
+				return Step{}, false
+			}
+			b := (a + 1 + r.Intn(len(w.B)-1)) % len(w.B)
+			w.pending = append(w.pending, Step{Op: "clone", S: []int{b, a}})
+			w.probe("cowclone-scenario")
+			return Step{Op: "setcow", S: []int{a}, A: []uint64{1}}, true
+		},
+		exec: func(w *World, st *Step) {}})
+}
+
+func init() {
+	// parlist: build a list of bitmaps over a small common key set (each member holds a
+	// random subset of the keys, in varied chunk kinds, some members sharing flagged
+	// chunks with a copy-on-write clone), then aggregate it.
+	reg(&opDef{name: "parlist", tag: "C11",
+		gen: func(w *World, r *Rng) (Step, bool) {
+			nk := 3 + r.Intn(6)
+			base := w.key(r)
+			if r.Chance(1, 3) {
+				base = uint16(0xFFFF - nk - r.Intn(3)) // the top of the key space
+			}
+			var keys []uint16
+			k := base
+			for i := 0; i < nk; i++ {
+				keys = append(keys, k)
+				k += uint16(1 + r.Intn(3))
+				if k < base {
+					break
+				}
+			}
+			m := 3 + r.Intn(len(w.B)-3)
+			perm := make([]int, len(w.B))
+			for i := range perm {
+				perm[i] = i
+			}
+			for i := len(perm) - 1; i > 0; i-- {
+				j := r.Intn(i + 1)
+				perm[i], perm[j] = perm[j], perm[i]
+			}
+			members := perm[:m]
+			var steps []Step
+			for _, b := range members {
+				steps = append(steps, Step{Op: "clear", S: []int{b}})
+				for _, key := range keys {
+					if r.Chance(1, 2) {
+						steps = append(steps, w.kindSteps(r, b, key)...)
+					}
+				}
+				if r.Chance(1, 2) && m < len(w.B) {
+					steps = append(steps, Step{Op: "setcow", S: []int{b}, A: []uint64{1}}, Step{Op: "clone", S: []int{perm[m+r.Intn(len(w.B)-m)], b}})
+				}
+			}
+			list := append([]int(nil), members...)
+			for i := len(list) - 1; i > 0; i-- {
+				j := r.Intn(i + 1)
+				list[i], list[j] = list[j], list[i]
+			}
+			if w.Cfg.Profile == "C12" || r.Chance(1, 3) {
+				steps = append(steps, Step{Op: "parcmp", S: list, A: []uint64{uint64([]int{0, 0, 1, 2}[r.Intn(4)]), r.U64(), uint64(4 + r.Intn(5))}})
+			} else {
+				dst := perm[len(perm)-1]
+				steps = append(steps, Step{Op: "agg", S: append([]int{dst}, list...), A: []uint64{uint64(r.Intn(7)), uint64(workerPool[r.Intn(len(workerPool))])}})
+			}
+			w.pending = append(w.pending, steps[1:]...)
+			w.probe("parlist-scenario")
+			return steps[0], true
+		},
+		exec: func(w *World, st *Step) {}})
+}
+
 func itoa(n int) string {
 	if n == 0 {
 		return "0"
@@ -126,7 +202,7 @@ func (w *World) kindSteps(r *Rng, b int, k uint16) []Step {
 	base := uint64(k) << 16
 	edge := func() uint64 { return uint64(lowPool[r.Intn(len(lowPool))]) }
 	var out []Step
-	switch r.Intn(7) {
+	switch []int{0, 1, 2, 2, 3, 4, 5, 6}[r.Intn(8)] {
 	case 0: // small array
 		out = append(out, Step{Op: "addmany", S: []int{b}, A: []uint64{uint64(k), uint64([]int{0, 1, 5}[r.Intn(3)]), uint64(1 + r.Intn(400)), r.U64()}})
 	case 1: // larger array
